@@ -269,6 +269,7 @@ def mon_push(sc):
 
 MONITORS = {
     "c01": [mon_start_once, mon_response_once, mon_faults],
+    "c02": [mon_start_once, mon_response_once, mon_faults],
     "c03": [mon_barrier, mon_faults],
     "c06": [mon_concurrency, mon_faults],
     "c07": [mon_cancel_target, mon_faults],
@@ -283,6 +284,8 @@ def nontrivial(sc, fam):
     txt = "\n".join(sc["lines"])
     if fam == "c01":
         return "\to\tsend\t" in "\n" + txt and "\to\tstart\t" in "\n" + txt or ("o\tsend" in txt and "o\tstart" in txt)
+    if fam == "c02":
+        return "o\tsend" in txt and (",-32600:" in txt or ",-32700:" in txt or "feed\tbad" in txt or "feed\tempty" in txt)
     if fam == "c03":
         return txt.count("o\tstart") >= 2 and ",67,5b" in txt
     if fam == "c06":
